@@ -24,6 +24,12 @@ structure Refines (x : COO Int) (d : Dense) : Prop where
   fill : x.fill = d.fill
   val : ∀ i, InB i x.shape → x.get i = d.val i
 
+/-- member-wise refinement of two lists (the members of a join) -/
+inductive RefinesL : List (COO Int) → List Dense → Prop
+  | nil : RefinesL [] []
+  | cons {x : COO Int} {d : Dense} {xs : List (COO Int)} {ds : List Dense} :
+      Refines x d → RefinesL xs ds → RefinesL (x :: xs) (d :: ds)
+
 /-- simulation of a model result by a spec result: on success the array is canonical, stores no
 fill value when `nf` holds, and denotes the spec's array; an error is the spec's error -/
 def Sim (nf : Prop) (m : Except Err (COO Int)) (s : Except Err Dense) : Prop :=
